@@ -421,7 +421,15 @@ func run(args []string) int {
 		wg.Add(1)
 		go func(w int) {
 			defer wg.Done()
-			cmd := exec.Command(b.bin, "batch", "-prop", prop, "-tier", *tier, "-seed", fmt.Sprint(seed), "-worker", fmt.Sprint(w), "-workers", fmt.Sprint(*workers), "-count", fmt.Sprint(n), "-deadline", fmt.Sprint(deadline), "-hashes", hashFile+"."+fmt.Sprint(w))
+			wargs := []string{"batch", "-prop", prop, "-tier", *tier, "-seed", fmt.Sprint(seed), "-worker", fmt.Sprint(w), "-workers", fmt.Sprint(*workers), "-count", fmt.Sprint(n), "-deadline", fmt.Sprint(deadline), "-hashes", hashFile + "." + fmt.Sprint(w)}
+			cmd := exec.Command(b.bin, wargs...)
+			if !isRace {
+				// a host with 8 GiB of address space per broker process: an
+				// allocation sized by an attacker's length field beyond that
+				// kills the worker like it would kill a real broker (the
+				// race-detector runtime cannot run under such a limit)
+				cmd = exec.Command("/bin/sh", append([]string{"-c", `ulimit -v 8388608; exec "$0" "$@"`, b.bin}, wargs...)...)
+			}
 			cmd.Env = append(os.Environ(), "GOMAXPROCS=1", "GORACE=halt_on_error=0 history_size=2", "GOTRACEBACK=single")
 			stdout, _ := cmd.StdoutPipe()
 			var errBuf bytes.Buffer
